@@ -568,6 +568,17 @@ class Fold(ast.NodeTransformer):
         self.generic_visit(n)
         if self._destructure_zip_rows(n):
             self.changed = True
+        # [E(x) for x in (p, ~p)]  over a literal display of one to four names / unary operations on names, E building a plain container
+        # (dict(..) / tuple / list / a display) from subscripts and attributes: the display of the instances
+        if len(n.generators) == 1 and not n.generators[0].ifs and not n.generators[0].is_async and isinstance(n.generators[0].target, ast.Name) \
+                and isinstance(n.generators[0].iter, (ast.Tuple, ast.List)) and 1 <= len(n.generators[0].iter.elts) <= 4 \
+                and all(isinstance(r, ast.Name) or (isinstance(r, ast.UnaryOp) and isinstance(r.operand, ast.Name)) for r in n.generators[0].iter.elts) \
+                and any(isinstance(r, ast.UnaryOp) for r in n.generators[0].iter.elts) \
+                and all(isinstance(c.func, ast.Name) and c.func.id in ("dict", "tuple", "list") and c.func.id not in self._module_names() for c in ast.walk(n.elt) if isinstance(c, ast.Call)) \
+                and not any(isinstance(y, (ast.Lambda, ast.ListComp, ast.SetComp, ast.DictComp, ast.GeneratorExp, ast.NamedExpr, ast.Await, ast.Yield, ast.YieldFrom)) for y in ast.walk(n.elt)):
+            x = n.generators[0].target.id
+            self.changed = True
+            return ast.copy_location(ast.List(elts=[_Sub({x: r}, {}).visit(copy.deepcopy(n.elt)) for r in n.generators[0].iter.elts], ctx=ast.Load()), n)
         return n
 
     def visit_DictComp(self, n):
@@ -585,6 +596,7 @@ class Fold(ast.NodeTransformer):
         if isinstance(n.test, ast.Constant) and isinstance(n.test.value, (bool, type(None))):
             self.changed = True
             return n.body if n.test.value else n.orelse
+        n.test = self._truth(n.test)
         return n
 
     def _record_display(self, e):
@@ -720,8 +732,37 @@ class Fold(ast.NodeTransformer):
             self.changed = True
         return n
 
+    def _truth(self, e):
+        """where only the truth value of e is asked for (the test of an if / while / conditional expression, a comprehension filter, the
+        operand of `not`):  False if A else B -> not A and B ;  True if A else B -> A or B ;  B if A else False -> A and B ;
+        B if A else True -> not A or B"""
+        if isinstance(e, ast.IfExp):
+            cb = lambda x: isinstance(x, ast.Constant) and isinstance(x.value, bool)
+            A, B_, C_ = e.test, e.body, e.orelse
+            neg = lambda x: ast.UnaryOp(op=ast.Not(), operand=x)
+            out = None
+            if cb(B_) and not cb(C_):
+                out = ast.BoolOp(op=ast.Or(), values=[A, self._truth(C_)]) if B_.value else ast.BoolOp(op=ast.And(), values=[neg(A), self._truth(C_)])
+            elif cb(C_) and not cb(B_):
+                out = ast.BoolOp(op=ast.Or(), values=[neg(A), self._truth(B_)]) if C_.value else ast.BoolOp(op=ast.And(), values=[A, self._truth(B_)])
+            if out is not None:
+                self.changed = True
+                return ast.copy_location(out, e)
+        return e
+
+    def visit_If(self, n):
+        self.generic_visit(n)
+        n.test = self._truth(n.test)
+        return n
+
+    def visit_While(self, n):
+        self.generic_visit(n)
+        n.test = self._truth(n.test)
+        return n
+
     def visit_comprehension(self, n):
         self.generic_visit(n)
+        n.ifs = [self._truth(t) for t in n.ifs]
         d = self._record_display(n.iter)
         if d is not None:
             n.iter = d
@@ -1763,12 +1804,18 @@ def _rows(repo, f, it):
         # a display of plain names / paths: for idx in (idx1, idx2, idx3)
         if isinstance(e, (ast.Tuple, ast.List)) and 1 <= len(e.elts) <= 8 and all(isinstance(x, (ast.Name, ast.Attribute, ast.Subscript)) and _cheap(x) for x in e.elts):
             return list(e.elts)
-        return _table(repo, f, e) if isinstance(e, (ast.Name, ast.Attribute)) else None
+        return _table(repo, f, e) if isinstance(e, (ast.Name, ast.Attribute, ast.BinOp)) else None
     t = table(it)
     if t is None and isinstance(it, ast.Name):
         d = _display_local(f, it.id)
         if d is not None:
             t = table(d)
+        else:
+            # a local bound once to TABLE_A + TABLE_B (module-level tables)
+            defs_ = [n for n in walk_own(f.node) if isinstance(n, ast.Assign) and len(n.targets) == 1 and isinstance(n.targets[0], ast.Name) and n.targets[0].id == it.id]
+            stores_ = sum(1 for x in ast.walk(f.node) if isinstance(x, ast.Name) and x.id == it.id and isinstance(x.ctx, (ast.Store, ast.Del)))
+            if len(defs_) == 1 and stores_ == 1 and it.id not in f.params and isinstance(defs_[0].value, ast.BinOp):
+                t = table(defs_[0].value)
     if t is not None:
         return [[r] for r in t]
     # D.items() / D.keys() / D.values() over a local bound once to a dict display with constant keys and cheap values
@@ -2294,10 +2341,25 @@ def propagate_record_locals(repo, f):
             continue
         # the arguments must keep their value between the construction and the reads: plain names bound once / parameters / paths on them
         stable = True
-        for v in vals.values():
-            for x in ast.walk(v):
-                if isinstance(x, ast.Name) and binds.get(x.id, 0) > 1:
-                    stable = False
+        rebound = {x.id for v in vals.values() for x in ast.walk(v) if isinstance(x, ast.Name) and binds.get(x.id, 0) > 1}
+        if rebound:
+            # an argument bound more than once (the two arms of an `if` in front of the construction): fine when the construction dominates
+            # every read of t inside its own block and nothing after it in that block binds the argument again
+            stable = False
+            blk = None
+            for n_ in ast.walk(f.node):
+                for fld in ("body", "orelse", "finalbody"):
+                    sub = getattr(n_, fld, None)
+                    if isinstance(sub, list) and any(x is st for x in sub):
+                        blk = sub
+            if blk is not None:
+                j_ = next(i for i, x in enumerate(blk) if x is st)
+                after = [y for s_ in blk[j_ + 1:] for y in ast.walk(s_)]
+                after_ids = {id(y) for y in after}
+                loads_t = [x for x in ast.walk(f.node) if isinstance(x, ast.Name) and x.id == t and isinstance(x.ctx, ast.Load)]
+                if all(id(x) in after_ids for x in loads_t) and not any(isinstance(y, ast.Name) and y.id in rebound and isinstance(y.ctx, (ast.Store, ast.Del)) for y in after) \
+                        and not any(isinstance(y, (ast.FunctionDef, ast.AsyncFunctionDef, ast.Lambda)) for y in after if any(isinstance(z, ast.Name) and z.id == t for z in ast.walk(y))):
+                    stable = True
         cq = repo.chase(f.mod, rec.func.id)
         cn = repo.classes.get(cq) if cq else None
         is_nt = cn is None or any(U(b) in ("NamedTuple", "typing.NamedTuple") for b in cn.bases)
@@ -2339,7 +2401,8 @@ def propagate_record_locals(repo, f):
                         return n2
                 e_ = PS().visit(copy.deepcopy(body_[0].value))
                 if ok_ and not any(isinstance(x, ast.Name) and x.id == sname for x in ast.walk(e_)) \
-                        and not any(isinstance(x, (ast.Call, ast.Yield, ast.Await, ast.Lambda)) for x in ast.walk(e_)):
+                        and not any(isinstance(x, (ast.Yield, ast.Await, ast.Lambda)) or (isinstance(x, ast.Call) and not (
+                            isinstance(x.func, ast.Name) and x.func.id == "len" and len(x.args) == 1 and not x.keywords)) for x in ast.walk(e_)):
                     props[pname] = e_
 
         class RW(ast.NodeTransformer):
@@ -4720,6 +4783,127 @@ def _zips_comprehension_locals(fnode):
                                      and all(isinstance(a_, ast.Name) and a_.id in comp_locals for a_ in x.iter.args) for x in walk_own(fnode))
 
 
+def split_boolean_keyed_dicts(fnode, counter):
+    """D = {True: a, False: b}  (bound once, only ever subscripted, by True / False / bool(E) / not E)   ->   two scalars:
+           D[True] -> D__t ;  D[bool(E)] op= v  ->  if E: D__t op= v  else: D__f op= v ;  a read D[bool(E)] -> (D__t if E else D__f)
+    bool(E) and the test of an `if` both ask E for its truth value once, in the same place in the evaluation order."""
+    par = {}
+    for n in ast.walk(fnode):
+        for c in ast.iter_child_nodes(n):
+            par[c] = n
+    a = fnode.args
+    params = {p.arg for p in a.posonlyargs + a.args + a.kwonlyargs} | ({a.vararg.arg} if a.vararg else set()) | ({a.kwarg.arg} if a.kwarg else set())
+    cands = {}
+    for st in walk_own(fnode):
+        if isinstance(st, ast.Assign) and len(st.targets) == 1 and isinstance(st.targets[0], ast.Name) and isinstance(st.value, ast.Dict) and len(st.value.keys) == 2 \
+                and all(isinstance(k, ast.Constant) and isinstance(k.value, bool) for k in st.value.keys) and {k.value for k in st.value.keys} == {True, False}:
+            cands.setdefault(st.targets[0].id, []).append(st)
+    changed = False
+    for name, defs in cands.items():
+        if len(defs) != 1 or name in params or name in _CAPTURED:
+            continue
+        occ = [x for x in ast.walk(fnode) if isinstance(x, ast.Name) and x.id == name]
+        uses = [x for x in occ if x is not defs[0].targets[0]]
+
+        def key_kind(k):
+            if isinstance(k, ast.Constant) and isinstance(k.value, bool):
+                return "const"
+            if isinstance(k, ast.Call) and isinstance(k.func, ast.Name) and k.func.id == "bool" and len(k.args) == 1 and not k.keywords:
+                return "bool"
+            if isinstance(k, ast.UnaryOp) and isinstance(k.op, ast.Not):
+                return "not"
+            return None
+        if not uses or any(not (isinstance(par.get(u), ast.Subscript) and par[u].value is u and key_kind(par[u].slice)) for u in uses):
+            continue
+        if any(isinstance(x, (ast.FunctionDef, ast.AsyncFunctionDef, ast.Lambda)) and x is not fnode and any(isinstance(y, ast.Name) and y.id == name for y in ast.walk(x)) for x in ast.walk(fnode)):
+            continue
+        counter[0] += 1
+        tn, fn_ = f"{name}__t{counter[0]}", f"{name}__f{counter[0]}"
+
+        def test_of(k):
+            kk = key_kind(k)
+            return k.args[0] if kk == "bool" else k          # `not E` is its own test
+
+        ok = True
+        # statement-level stores first
+        plan = []
+        for u in uses:
+            sub = par[u]
+            kk = key_kind(sub.slice)
+            if isinstance(sub.ctx, ast.Load):
+                continue
+            stt = par.get(sub)
+            if kk == "const":
+                continue
+            if not (isinstance(stt, (ast.AugAssign, ast.Assign)) and ((isinstance(stt, ast.AugAssign) and stt.target is sub) or (isinstance(stt, ast.Assign) and stt.targets == [sub]))):
+                ok = False
+                break
+            if any(isinstance(y, ast.Name) and y.id == name for y in ast.walk(stt.value)):
+                ok = False
+                break
+            plan.append((stt, sub))
+        if not ok:
+            continue
+
+        class RW(ast.NodeTransformer):
+            def visit_Subscript(self, n):
+                self.generic_visit(n)
+                if isinstance(n.value, ast.Name) and n.value.id == name:
+                    kk = key_kind(n.slice)
+                    if kk == "const":
+                        return ast.copy_location(ast.Name(id=tn if n.slice.value else fn_, ctx=n.ctx), n)
+                    if isinstance(n.ctx, ast.Load):
+                        return ast.copy_location(ast.IfExp(test=test_of(n.slice), body=ast.Name(id=tn, ctx=ast.Load()), orelse=ast.Name(id=fn_, ctx=ast.Load())), n)
+                return n
+
+        def rewrite_block(stmts):
+            out = []
+            for st in stmts:
+                hit = next((p_ for p_ in plan if p_[0] is st), None)
+                if hit is not None:
+                    sub = hit[1]
+                    arms = []
+                    for nm in (tn, fn_):
+                        c_ = copy.deepcopy(st)
+                        tgt = ast.Name(id=nm, ctx=ast.Store())
+                        if isinstance(c_, ast.AugAssign):
+                            c_.target = tgt
+                        else:
+                            c_.targets = [tgt]
+                        c_.value = RW().visit(c_.value)
+                        arms.append(c_)
+                    out.append(ast.copy_location(ast.If(test=copy.deepcopy(test_of(sub.slice)), body=[arms[0]], orelse=[arms[1]]), st))
+                    continue
+                if st is defs[0]:
+                    d = dict((k.value, v) for k, v in zip(st.value.keys, st.value.values))
+                    # values in display order (evaluation order kept)
+                    for k, v in zip(st.value.keys, st.value.values):
+                        out.append(ast.copy_location(ast.Assign(targets=[ast.Name(id=tn if k.value else fn_, ctx=ast.Store())], value=v, lineno=st.lineno), st))
+                    continue
+                for fld in ("body", "orelse", "finalbody"):
+                    subl = getattr(st, fld, None)
+                    if isinstance(subl, list) and subl and isinstance(subl[0], ast.stmt) and not isinstance(st, (ast.FunctionDef, ast.AsyncFunctionDef, ast.ClassDef)):
+                        setattr(st, fld, rewrite_block(subl))
+                if isinstance(st, ast.Try):
+                    for h in st.handlers:
+                        h.body = rewrite_block(h.body)
+                # expression parts of this statement (not nested statement lists, which were handled above)
+                for fld, val in ast.iter_fields(st):
+                    if fld in ("body", "orelse", "finalbody", "handlers"):
+                        continue
+                    if isinstance(val, ast.AST):
+                        setattr(st, fld, RW().visit(val))
+                    elif isinstance(val, list):
+                        setattr(st, fld, [RW().visit(x) if isinstance(x, ast.AST) else x for x in val])
+                out.append(st)
+            return out
+        fnode.body = rewrite_block(fnode.body)
+        changed = True
+    if changed:
+        ast.fix_missing_locations(fnode)
+    return changed
+
+
 def partial_evaluate(repo, max_rounds=8):
     from .inliner import simplify
     from .normalize import simplify_lists
@@ -4789,6 +4973,9 @@ def partial_evaluate(repo, max_rounds=8):
             if (steps or q in getattr(repo, "inlined", {})) and scalarise_conditional_records(repo, f):
                 ch = True
                 steps.append("conditional-records")
+            if (steps or q in getattr(repo, "inlined", {})) and split_boolean_keyed_dicts(f.node, counter):
+                ch = True
+                steps.append("boolean-keyed-dicts")
             if (steps or q in getattr(repo, "inlined", {})) and split_record_lists(repo, f):
                 ch = True
                 steps.append("record-lists")
